@@ -30,6 +30,8 @@ var (
 	keys      = []string{"/a/b", "/cam/1", "/cam/1/3", "/x/y", "/live/room", "/pub/s1", "/a"}
 	rights    = []string{"", "*", "/a/b", "/a/*", "/cam/+", "/cam/1", "/cam/1/+", "/cam/1/*", "/x/*", "/x/y;/a/b", "/pub/*",
 		"/live/room", " /a/b ; /x/y ", "/+/b", "/cam/*;/live/+", "/A/B", "/a", "/pub/s1;/cam/1", "/x/+;/a/+"}
+	// sections the composed masks and the mask-relative request paths are made of (those of `keys`, and a few more)
+	secWords = []string{"a", "b", "cam", "1", "3", "x", "y", "live", "room", "pub", "s1", "s2", "2", "hall"}
 	ages = []int{30, 600, 3000, 7000, 7200 - 90, 7200 + 90, 40000, 604800 - 7200 - 200, 604800 - 7200 + 200, 604800 + 90}
 )
 
@@ -76,6 +78,7 @@ type gen struct {
 	clock       int
 	toks        []tinfo
 	lastTokUser string // user of the token the last tokFor / tokRef returned (guidance)
+	near        map[string]string // request path derived from a mask → the user whose mask it was (guidance)
 }
 
 func hexs(s string) string { return Hx([]byte(s)) }
@@ -157,6 +160,11 @@ func (g *gen) tokFor(key string) string {
 		if gt, ok := g.goodTok(key, false); ok {
 			t = gt
 		}
+	} else if o := g.near[key]; o != "" && g.c.Rng.Chance(70) {
+		// the path was derived from a mask of this user: the request comes from him, whether the mask covers it or not
+		if ot, ok := g.tokOf(o); ok {
+			t = ot
+		}
 	}
 	g.lastTokUser = ""
 	if len(t) > 1 && t[0] == 'A' {
@@ -169,6 +177,11 @@ func (g *gen) tokFor(key string) string {
 
 // a user for an RTSP session about `key`
 func (g *gen) userFor(key string, push bool) string {
+	if o := g.near[key]; o != "" && g.c.Rng.Chance(40) {
+		if u := g.users[o]; u != nil && !u.deleted {
+			return o // the owner of the mask the path was derived from, whether the mask covers it or not
+		}
+	}
 	if g.c.Rng.Chance(60) {
 		var cands []string
 		for n := range g.users {
@@ -214,7 +227,7 @@ func (g *gen) saveOp(name string, via string) {
 	lname := strings.ToLower(name)
 	u := g.users[lname]
 	admin := r.Chance(15) || (lname == "root" && r.Chance(80))
-	push, pull := g.pick(rights), g.pick(rights)
+	push, pull := g.right(), g.right()
 	if r.Chance(15) {
 		push = ""
 	}
@@ -276,10 +289,165 @@ func min(a, b int) int {
 }
 
 func (g *gen) anyKey() string {
+	if g.c.Rng.Chance(22) {
+		if k := g.nearKey(); k != "" {
+			return k
+		}
+	}
 	if len(g.regd) > 0 && g.c.Rng.Chance(75) {
 		return g.pick(g.regd)
 	}
 	return g.pick(keys)
+}
+
+// a live access token of this user, if the generator knows one
+func (g *gen) tokOf(user string) (string, bool) {
+	var cands []int
+	for k, t := range g.toks {
+		if !t.dead && g.clock-t.issued < 7000 && t.user == user {
+			cands = append(cands, k)
+		}
+	}
+	if len(cands) == 0 {
+		return "", false
+	}
+	return "A" + strconv.Itoa(cands[g.c.Rng.Intn(len(cands))]), true
+}
+
+// ---- rights and request paths chosen RELATIVE to each other ----
+//
+// What a right covers is a relation between a mask and a path: equal section counts, a longer path
+// under an end wildcard, a shorter one, `+` against any one section.  Lists of unrelated masks and
+// paths meet only a few of these relations; so masks are also composed from the stream paths
+// (deeper, shallower, beside, `+` for any section, with and without the end wildcard) and request
+// paths from the masks the users currently hold (strict ancestors of the fixed prefix, the prefix
+// itself, children, grandchildren, siblings at every depth).
+
+func sections(p string) []string {
+	var out []string
+	for _, s := range strings.Split(strings.ToLower(strings.TrimSpace(p)), "/") {
+		if s = strings.TrimSpace(s); s != "" {
+			out = append(out, s)
+		}
+	}
+	return out
+}
+
+// one mask derived from a stream path
+func (g *gen) maskFrom(key string) string {
+	r := g.c.Rng
+	secs := append([]string{}, sections(key)...)
+	switch r.Intn(5) {
+	case 0, 1: // deeper: the stream path is a strict ancestor of the mask's fixed part
+		for n := 1 + r.Intn(2); n > 0; n-- {
+			secs = append(secs, g.pick(secWords))
+		}
+	case 2: // shallower: the stream path lies below the mask's fixed part
+		if len(secs) > 1 {
+			secs = secs[:1+r.Intn(len(secs)-1)]
+		}
+	case 3: // beside: one section differs
+		secs[r.Intn(len(secs))] = g.pick(secWords)
+	default: // the path itself
+	}
+	for i := range secs {
+		if r.Chance(18) {
+			secs[i] = "+"
+		}
+	}
+	m := "/" + strings.Join(secs, "/")
+	if r.Chance(60) {
+		m += "/*"
+	}
+	if r.Chance(6) {
+		m = mixCase(r, m)
+	}
+	return m
+}
+
+// a right string: one of the fixed list, or one to three masks composed from stream paths
+func (g *gen) right() string {
+	r := g.c.Rng
+	if r.Chance(55) {
+		return g.pick(rights)
+	}
+	var ms []string
+	for n := 1 + r.Intn(100)/70 + r.Intn(100)/85; n > 0; n-- {
+		k := g.pick(keys)
+		if len(g.regd) > 0 && r.Chance(60) {
+			k = g.pick(g.regd)
+		}
+		ms = append(ms, g.maskFrom(k))
+	}
+	g.c.Count("gen-right-composed")
+	sep := ";"
+	if r.Chance(10) {
+		sep = " ; "
+	}
+	return strings.Join(ms, sep)
+}
+
+// a request path derived from a mask some live user holds now; remembers whose mask it was
+func (g *gen) nearKey() string {
+	r := g.c.Rng
+	type um struct{ user, mask string }
+	var cands []um
+	var ns []string
+	for n, u := range g.users {
+		if !u.deleted {
+			ns = append(ns, n)
+		}
+	}
+	sortStrings(ns)
+	for _, n := range ns {
+		for _, acc := range []string{g.users[n].pull, g.users[n].push} {
+			for _, m := range strings.Split(acc, ";") {
+				if secs := sections(m); len(secs) > 0 && !(len(secs) == 1 && secs[0] == "*") {
+					cands = append(cands, um{n, m})
+				}
+			}
+		}
+	}
+	if len(cands) == 0 {
+		return ""
+	}
+	c := cands[r.Intn(len(cands))]
+	secs := append([]string{}, sections(c.mask)...)
+	if secs[len(secs)-1] == "*" {
+		secs = secs[:len(secs)-1]
+	}
+	for i := range secs {
+		if secs[i] == "+" || secs[i] == "*" {
+			secs[i] = g.pick(secWords)
+		}
+	}
+	n := len(secs)
+	rel := "prefix"
+	switch x := r.Intn(100); {
+	case x < 34 && n >= 2: // a strict ancestor of the fixed part
+		secs = secs[:1+r.Intn(n-1)]
+		rel = "ancestor"
+	case x < 46: // the fixed part itself
+	case x < 62: // a child
+		secs = append(secs, g.pick(secWords))
+		rel = "child"
+	case x < 72: // deeper
+		secs = append(secs, g.pick(secWords), g.pick(secWords))
+		rel = "descendant"
+	case x < 88: // beside, at any depth
+		secs[r.Intn(n)] = g.pick(secWords)
+		rel = "sibling"
+	default: // beside an ancestor
+		if n >= 2 {
+			secs = secs[:1+r.Intn(n-1)]
+			secs[len(secs)-1] = g.pick(secWords)
+			rel = "ancestor-sibling"
+		}
+	}
+	k := "/" + strings.Join(secs, "/")
+	g.near[k] = c.user
+	g.c.Count("gen-path-" + rel + "-of-a-held-mask")
+	return k
 }
 
 func mixCase(r *Rng, s string) string {
@@ -580,6 +748,11 @@ func (g *gen) planRtsp(ws bool) []string {
 		plan = append(plan, "DESCRIBE|"+sp+"|v|t/-/0", "SETUP|"+sp+"|"+ctrl+"|"+tr, "PLAY|"+sp+"|v|t/-/0")
 	case x < 62: // publish
 		pub := g.pick([]string{"/pub/s1", "/pub/s2", "/a/b", "/live/new", key})
+		if r.Chance(30) {
+			if k := g.nearKey(); k != "" {
+				pub = k // related to a mask somebody holds: above, at, below or beside its fixed part
+			}
+		}
 		first("ANNOUNCE", pub)
 		rtr := g.pick([]string{"t/r/0", "t/r/0", "t/r/0", "u/r/0", "t/-/0", "t/r/1"})
 		plan = append(plan, "ANNOUNCE|"+pub+"|v|t/-/0", "SETUP|"+pub+"|"+ctrl+"|"+rtr, "RECORD|"+pub+"|v|t/-/0")
@@ -748,6 +921,23 @@ func (g *gen) generate() {
 	if r.Chance(60) {
 		g.saveOp("root", "")
 	}
+	// streams AT paths related to the rights just saved (mostly: above the fixed part of a mask), so that
+	// a wrong grant there delivers media and a wrong refusal withholds it
+	for i := 0; i < 2; i++ {
+		if !r.Chance(65) {
+			continue
+		}
+		if k := g.nearKey(); k != "" {
+			dup := false
+			for _, x := range g.regd {
+				dup = dup || x == k
+			}
+			if !dup {
+				g.regd = append(g.regd, k)
+				g.do("st:" + hexs(k))
+			}
+		}
+	}
 	// everybody logs in once, so that tokens exist
 	for i := 0; i < 1+r.Intn(3); i++ {
 		g.loginOp()
@@ -891,7 +1081,118 @@ func classify(op string, verdict string, feats map[string]bool, raw, impls []str
 		// the request carried the client's own value for the internal identity header
 		base += "-with-identity-header"
 	}
+	if v == "unsound" && aboveSomeMask(raw, impls, at, f) {
+		// the path granted lies two or more sections ABOVE the fixed part of a mask saved in this history
+		base += "-above-a-held-mask"
+	}
 	return base + "-" + v
+}
+
+// the stream path a request op names ("" if the op names none itself)
+func opPath(f []string) string {
+	switch f[0] {
+	case "hs":
+		p := strings.TrimPrefix(string(Unhx(f[2])), "/streams")
+		if strings.HasSuffix(strings.ToLower(p), ".ts") {
+			if i := strings.LastIndex(p, "/"); i >= 0 {
+				return p[:i]
+			}
+		}
+		if i := strings.LastIndex(p, "."); i > strings.LastIndex(p, "/") {
+			p = p[:i]
+		}
+		return p
+	case "ws":
+		p := strings.TrimPrefix(string(Unhx(f[2])), "/streams")
+		if i := strings.LastIndex(p, "."); i > strings.LastIndex(p, "/") {
+			p = p[:i]
+		}
+		return p
+	case "rt":
+		return string(Unhx(f[3]))
+	}
+	return ""
+}
+
+// the user a request op speaks for, as far as the op itself says: the owner of its access token
+// (followed through logins and refreshes by the outcomes recorded in the history) or the name in
+// its digest credentials; "" when the op does not say (a request inside a WebSocket session)
+func opUser(raw, impls []string, f []string) string {
+	tokUser := func(k int) string {
+		for depth := 0; depth < 64; depth++ {
+			found := false
+			for j, o := range impls {
+				if o != "t"+strconv.Itoa(k) || j >= len(raw) {
+					continue
+				}
+				x := strings.Split(raw[j], ":")
+				if x[0] == "li" {
+					return strings.ToLower(string(Unhx(x[1])))
+				}
+				if x[0] == "rf" && len(x[1]) > 1 && x[1][0] == 'R' {
+					if k2, err := strconv.Atoi(x[1][1:]); err == nil {
+						k, found = k2, true
+					}
+				}
+				break
+			}
+			if !found {
+				return ""
+			}
+		}
+		return ""
+	}
+	ref := ""
+	switch f[0] {
+	case "hs", "ws":
+		ref = f[3]
+	case "rt":
+		if f[4] != "-" {
+			return strings.ToLower(string(Unhx(strings.Split(f[4], "/")[0])))
+		}
+	}
+	if len(ref) > 1 && ref[0] == 'A' {
+		if k, err := strconv.Atoi(ref[1:]); err == nil {
+			return tokUser(k)
+		}
+	}
+	return ""
+}
+
+// is the path of this op two or more sections shorter than a mask of the rights its user was LAST
+// saved with, every section it has met by the mask's?  (names the class of an unsound grant only)
+func aboveSomeMask(raw, impls []string, at int, f []string) bool {
+	p, user := opPath(f), opUser(raw, impls, f)
+	if p == "" || user == "" {
+		return false
+	}
+	ps := sections(utils.CanonicalPath(p))
+	var accs []string
+	for j := 0; j < at && j < len(raw); j++ {
+		x := strings.Split(raw[j], ":")
+		switch {
+		case x[0] == "sv" && len(x) > 4 && strings.ToLower(string(Unhx(x[1]))) == user:
+			accs = []string{string(Unhx(x[3])), string(Unhx(x[4]))}
+		case x[0] == "asv" && len(x) > 5 && impls[j] == "pass" && strings.ToLower(string(Unhx(x[2]))) == user:
+			accs = []string{string(Unhx(x[4])), string(Unhx(x[5]))}
+		}
+	}
+	for _, acc := range accs {
+		for _, m := range strings.Split(acc, ";") {
+			ms := sections(m)
+			if len(ps) == 0 || len(ms) < len(ps)+2 {
+				continue
+			}
+			ok := true
+			for i := range ps {
+				ok = ok && (ms[i] == "+" || ms[i] == ps[i])
+			}
+			if ok {
+				return true
+			}
+		}
+	}
+	return false
 }
 
 // ---- sub-models compared directly with the library functions they model ----
@@ -963,7 +1264,7 @@ type caseRec struct {
 }
 
 func runOps(c *Ctx, raw []string) caseRec {
-	g := &gen{c: c, w: newWorld(), users: map[string]*uinfo{}, feats: map[string]bool{}}
+	g := &gen{c: c, w: newWorld(), users: map[string]*uinfo{}, feats: map[string]bool{}, near: map[string]string{}}
 	defer g.w.close()
 	for _, op := range raw {
 		g.do(op)
@@ -1060,7 +1361,7 @@ func run(c *Ctx) {
 	if c.Replay == "" {
 		n := c.Budget(1200, 12000)
 		for i := 0; i < n; i++ {
-			g := &gen{c: c, w: newWorld(), users: map[string]*uinfo{}, feats: map[string]bool{}}
+			g := &gen{c: c, w: newWorld(), users: map[string]*uinfo{}, feats: map[string]bool{}, near: map[string]string{}}
 			g.generate()
 			g.w.close()
 			k, usable := settle(c, caseRec{line: "c11 case " + strings.Join(g.ops, " "), raw: g.raw, impls: g.impls, feats: featsOf(g.raw), slow: g.w.slow, wedged: g.w.wedged})
